@@ -410,14 +410,15 @@ def mConcat (recv a0 : Val) (isConst : Bool) : Res (Val × Val) :=
   else
     match recv.type.major with
     | .none =>
+      -- the constant of the literal `null` is not overwritten: a new value is returned (a40085e)
       match a0.type.major with
-      | .str => .ok (a0, a0)
+      | .str => .ok (a0, if isConst then recv else a0)
       | .int =>
         match a0.asInt with
         | .ok c =>
           if c < 0 || c > 255 then .err Gen.EXC_RT_MEMB_ARG_TYPE_S
-          else if c == 0 then let r := Val.raw [0]; .ok (r, r)
-          else let r := Val.str [byteOfInt c]; .ok (r, r)
+          else if c == 0 then let r := Val.raw [0]; .ok (r, if isConst then recv else r)
+          else let r := Val.str [byteOfInt c]; .ok (r, if isConst then recv else r)
         | .err c x => .err c x
         | .haz h => .haz h
         | .unmodelled => .unmodelled
@@ -468,6 +469,32 @@ def memberCall (m : Member) (recv : Val) (args : List Val) (recvIsConst : Bool) 
   | .concat, [a0] => mConcat recv a0 recvIsConst
   | .count, [] => mCount recv
   | _, _ => .unmodelled
+
+/-! ### what the receiver expression designates (`MemberExpression::receiver()`, 876bec0)
+
+`receiver()`: `val = _exp->value(ctx); if (val.lvalue() && !_exp->isConst() && !_exp->isStorage()) return ctx.allocate(val.clone());`
+— the methods working in place (concat, put, insert, delete, set@) manipulate the value itself only when the receiver
+expression designates a storage (`isStorage()`: a variable, or an element / item / chained type method of one) or yields a
+temporary (an rvalue); an lvalue that the expression merely hands through (`(s + null)`, …) is cloned first; a literal constant
+(`isConst()`: a string literal, `null` — the only constants that reach the built-in members) is never written to: the methods
+return a new value (`recvIsConst` of `memberCall`). -/
+
+inductive RecvKind
+  | storage | constant | temporary | handedThrough
+  deriving DecidableEq, Repr
+
+/-- a member call by receiver kind: `(result, value of the variable / constant / handed-through operand after the call)` -/
+def memberCallK (k : RecvKind) (m : Member) (recv : Val) (args : List Val) : Res (Val × Val) :=
+  match k with
+  | .storage => memberCall m recv args false
+  | .constant => memberCall m recv args true
+  | .temporary | .handedThrough =>
+    -- the temporary / the clone is what the method modifies and returns; the operand keeps its value
+    match memberCall m recv args false with
+    | .ok (r, _) => .ok (r, recv)
+    | .err c a => .err c a
+    | .haz h => .haz h
+    | .unmodelled => .unmodelled
 
 /-! ### tuples: `u@N`, `u.set@N(v)` -/
 
@@ -729,12 +756,11 @@ def levelUp8 (t : Ty) : Ty := { t with level := (t.level + 1) % 256 }
 def levelDown8 (t : Ty) : Ty := { t with level := (t.level + 255) % 256 }
 
 /-- header of the table created by `tab(n, a1)` from the first evaluation of `a1`. The dimension test is
-`a1.type().level() == TYPE_LEVEL_MAX - 1` (an equality): an element of 255 dimensions — which only `tab(<null count>, x)`
-can produce, that branch has no dimension test at all — passes it, and the header's level wraps to 0
-(finding C09.tab.levelWrap: the result is a `Value` typed as a level-0 integer / … that holds a Collection). -/
+`a1.type().level() >= TYPE_LEVEL_MAX - 1` (repaired, 2c67aef; was an equality that an element of 255 dimensions passed, after
+which the `uint8_t` level wrapped to 0: former finding C09.tab.levelWrap), so the `levelUp8` below never wraps. -/
 def tabHeader (a1 : Val) : Res (Ty × List Ty) :=
   if a1.type.major == .none || a1.type == { major := .tup } then .err Gen.EXC_RT_COMPOUND_OPAQUE
-  else if a1.type.level == Gen.TYPE_LEVEL_MAX - 1 then .err Gen.EXC_RT_OUT_OF_DIMENSION
+  else if a1.type.level ≥ Gen.TYPE_LEVEL_MAX - 1 then .err Gen.EXC_RT_OUT_OF_DIMENSION
   else match a1 with
     | .tup decl _ => .ok (makeTupleTy decl 1, decl)
     | .tab t decl _ => if t.major == .tup then .ok (makeTupleTy decl ((t.level + 1) % 256), decl) else .ok (levelUp8 t, [])
@@ -758,7 +784,9 @@ def biTab (args : List (Thunk m)) : m Val := do
     let a0 ← t0
     if a0.isNull then
       let a1 ← t1
-      return .null (levelUp8 a1.type)       -- no dimension test in this branch; uint8 arithmetic
+      -- `if (a1_type.level() >= TYPE_LEVEL_MAX - 1) throw OUT_OF_DIMENSION` (2c67aef; the branch had no dimension test)
+      if a1.type.level ≥ Gen.TYPE_LEVEL_MAX - 1 then rerr Gen.EXC_RT_OUT_OF_DIMENSION else
+      return .null (levelUp8 a1.type)
     let n ← liftR a0.asInt
     if n < 0 then rerr Gen.EXC_RT_INDEX_RANGE_S else
     if n > 1048576 then liftR .unmodelled else
@@ -769,12 +797,35 @@ def biTab (args : List (Thunk m)) : m Val := do
     return .tab t decl es
   | _ => argTypeErr
 
+end
+
+/-- an element expression whose successive evaluations yield the values of a script (exhausted script: an error): `tab(n, e)`
+evaluates `e` max(n, 1) times, and `e` may call functions, `random()`, in-place members… (instantiates the generic `biTab` /
+`tabFill` at the state monad; Proofs/C09.lean `tabFill_stream`, `tab_varying`) -/
+def nextVal : StateT (List Val) Res Val := fun s =>
+  match s with
+  | v :: rest => .ok (v, rest)
+  | [] => .err Gen.EXC_RT_INV_EXPRESSION
+
+/-- `tab(n, e)` with `e` yielding the script `vs` -/
+def biTabScript (n : Val) (vs : List Val) : Res Val :=
+  match (biTab (m := StateT (List Val) Res) [pure n, nextVal]).run vs with
+  | .ok (r, _) => .ok r
+  | .err c a => .err c a
+  | .haz h => .haz h
+  | .unmodelled => .unmodelled
+
+section
+variable {m : Type → Type} [Monad m] [MonadLiftT Res m]
+
 /-- `tup()` / `tup(x, …)`. -/
 def tupItems : List (Thunk m) → List Val → m (List Val)
   | [], acc => pure acc
   | t :: ts, acc => do
     let v ← t
     if v.type.major == .none then rerr Gen.EXC_RT_COMPOUND_OPAQUE
+    -- "nesting and table are not allowed": also at run time (4db32b5; was tested on the static type only)
+    else if v.type.level > 0 || v.type.major == .tup then rerr Gen.EXC_RT_FUNC_ARG_TYPE_S
     else tupItems ts (acc ++ [v])
 
 def biTup (args : List (Thunk m)) : m Val := do
@@ -857,9 +908,12 @@ def forallLeave (iter : Nat) (target : Option Nat) (before cur : Nat → Bool) :
     else if target == some s then before s
     else cur s
 
-/-- a body as far as the lock is concerned: member calls and nested `forall` -/
+/-- a body as far as the lock is concerned: member calls, assignments `sym = expr;` (LETStatement::parse ends in
+`Context::registerSymbol`, whose first test on an existing symbol is `if (s->locked()) throw ParseError(CONST_VIOLATION)`)
+and nested `forall` -/
 inductive LStmt
   | call (op : MemberOp) (recv : RecvExp)
+  | assign (sym : Nat)
   | loop (iter : Nat) (target : RecvExp) (body : List LStmt)
 
 mutual
@@ -867,6 +921,7 @@ mutual
   flags afterwards -/
   def lockStmt : LStmt → (Nat → Bool) → Option (Nat → Bool)
     | .call op recv, fl => if lockRefuses op recv fl then none else some fl
+    | .assign sym, fl => if fl sym then none else some fl
     | .loop iter target body, fl =>
       match lockBody body (forallEnter iter target.symbolId fl) with
       | none => none
